@@ -63,6 +63,23 @@ def build():
     C.helpers["timeout_pending"] = pending("timeout")
     C.helpers["window_pending"] = pending("ignore_hits_within_window")
 
+    C.trace_helpers = {"n_posts", "n_posts_total", "post_kw", "completions"}
+
+    def emit_posts(*exprs):
+        """contract-level emission of the posts a callee guarantees (so callers can use its trace clauses)"""
+        def f(I, env, res):
+            I.frames.append(type(I.frames[0])(None, dict(env)))
+            I.spec_depth += 1
+            try:
+                for ex in exprs:
+                    import ast as _ast
+                    v = I.eval(_ast.parse(ex, mode="eval").body)
+                    emit(I, "post", kind="post", event=v, kwargs={}, callback=NONE, via="contract")
+            finally:
+                I.spec_depth -= 1
+                I.frames.pop()
+        return f
+
     COMMON_CFG = dict(reset_on_complete=Bool, disable_on_complete=Bool, logic_block_timeout=Int,
                       events_when_complete=ListOf(Str, 2), events_when_hit=ListOf(Str, 2),
                       persist_state=Bool, enable_events=Opt(Rec()))
@@ -78,7 +95,15 @@ def build():
                       _start_enabled=Opt(Bool))
         fields.update(extra_fields or {})
         C.cls(cls, file=LB, bases=["LogicBlock"], fields=fields, invariants=list(invariants) + [
-            ("timeout config is ms >= 0", "self.config['logic_block_timeout'] >= 0")])
+            ("timeout config is ms >= 0", "self.config['logic_block_timeout'] >= 0"),
+            ("hit, completion and update event names are distinct (config sanity, so posts can be told apart)",
+             "self.config['events_when_hit'][0] != self.config['events_when_complete'][0] and "
+             "self.config['events_when_hit'][0] != self.config['events_when_complete'][1] and "
+             "self.config['events_when_hit'][1] != self.config['events_when_complete'][0] and "
+             "self.config['events_when_hit'][1] != self.config['events_when_complete'][1] and "
+             "self.config['events_when_hit'][0] != %s and self.config['events_when_hit'][1] != %s and "
+             "self.config['events_when_complete'][0] != %s and self.config['events_when_complete'][1] != %s"
+             % (UPD, UPD, UPD, UPD))])
         q = "LogicBlock."
         for prop in ("value", "enabled", "completed"):
             C.fn("%s.%s" % (cls, prop), qualname=q + prop, is_property=True, inline=True, no_inv=True)
@@ -95,8 +120,12 @@ def build():
             was = I.force(I.read_field(st.ref, "completed", heap=I.old_heap))
             if not I.ctx.branch(was.t):
                 emit(I, "complete", via="contract")
+                cfg = I.force(I.read_field(env["self"].ref, "config")).ref
+                evs = I.container(I.force(I.read_field(cfg, "events_when_complete")).ref).items
+                for e in evs:
+                    emit(I, "post", kind="post", event=e, kwargs={}, callback=NONE, via="contract")
 
-        C.fn("%s.enable" % cls, qualname=q + "enable", requires=[ST],
+        C.fn("%s.enable" % cls, qualname=q + "enable", requires=[ST], emits=emit_posts(UPD),
              ensures=[("enabled", "self._state.enabled == True"), ("value untouched", same_val),
                       ("completed untouched", "self._state.completed == old(self._state.completed)"),
                       ("update event posted", "n_posts(%s) == 1" % UPD),
@@ -143,6 +172,7 @@ def build():
              modifies=["self._state.completed", "self._state.value", "self._state.enabled", "self.delay.pending"],
              raises={})
         C.fn("%s._logic_block_timeout" % cls, qualname=q + "_logic_block_timeout", requires=[ST],
+             emits=emit_posts("'{}_timeout'.format(self.name)"),
              ensures=[("timeout event posted", "n_posts('{}_timeout'.format(self.name)) == 1"),
                       ("progress reset", "self._state.completed == False and %s == %s" % (SV, start))],
              modifies=["self._state.completed", "self._state.value", "self.delay.pending"], raises={})
@@ -196,6 +226,7 @@ def build():
          ],
          modifies=["self._state.completed", "self._state.value", "self._state.enabled", "self.delay.pending",
                    "self.ignore_hits"], raises={})
+    C.fns["Counter.count"].emits = lambda I, env, res: None   # callers (event_count) only rely on the frame
     C.fn("Counter.event_count", requires=[ST],
          modifies=["self._state.completed", "self._state.value", "self._state.enabled", "self.delay.pending",
                    "self.ignore_hits"], raises={})
